@@ -137,9 +137,13 @@ pub open spec fn concat_blocks(blocks: Seq<Seq<u8>>, k: int) -> Seq<u8>
     }
 }
 
+/// the 28 fixed octets of an SR: header | SSRC | NTP | RTP timestamp | packet count | octet count
+pub open spec fn img_sr_head(ssrc: int, padding: int, ntp: int, rtp: int, pc: int, oc: int, nblocks: int) -> Seq<u8> {
+    img_header(padding, nblocks, 200, 28 + 24 * nblocks + padding) + img_be32(ssrc) + img_be64(ntp) + img_be32(rtp) + img_be32(pc) + img_be32(oc)
+}
+
 pub open spec fn img_sr_prefix(ssrc: int, padding: int, ntp: int, rtp: int, pc: int, oc: int, blocks: Seq<Seq<u8>>, k: int) -> Seq<u8> {
-    img_header(padding, blocks.len() as int, 200, 28 + 24 * blocks.len() + padding) + img_be32(ssrc) + img_be64(ntp) + img_be32(rtp)
-        + img_be32(pc) + img_be32(oc) + concat_blocks(blocks, k)
+    img_sr_head(ssrc, padding, ntp, rtp, pc, oc, blocks.len() as int) + concat_blocks(blocks, k)
 }
 
 pub open spec fn img_sr(ssrc: int, padding: int, ntp: int, rtp: int, pc: int, oc: int, blocks: Seq<Seq<u8>>) -> Seq<u8> {
